@@ -456,12 +456,14 @@ def r3_special(ctx, F):
     ctx.check("R3-special-files", "reopen-callers", callers <= {"open_file", "to_openable_handle", "open"}, "reopen_fd_through_proc is called by %s" % sorted(callers))
 
 
-def r4_errors(ctx, F):
+def r4_errors(ctx, F, only=None):
     n = 0
     for k, b in sorted(F.fns.items()):
         if not k.startswith("passthrough::") or "async_io" in k or b.kind not in ("assoc", "fn"):
             continue
-        if b.self_adt != PFS and not k.startswith("passthrough::util::"):
+        if b.self_adt != PFS and not k.startswith("passthrough::util::") and not ((b.self_adt or "").startswith("passthrough::Scoped") and b.name == "new"):
+            continue
+        if only is not None and b.name not in only:
             continue
         v = None
         for c in live_calls(b):
@@ -504,7 +506,8 @@ def r4_errors(ctx, F):
                           % (b.name, c.name, odd or "no failure test of this result"), loc=c.loc())
             ctx.check("R4-error-conversion", "%s/%s" % (b.name, c.name if c.name != "syscall" else vf.render(v.call_args(c)[0], b, short=True)), tested and conv,
                       "%s: the result of %s is %s" % (b.name, c.name, "not tested" if not tested else "not converted with last_os_error()"), loc=c.loc())
-    ctx.check("R4-error-conversion", "count", n >= 25, "only %d libc call results inspected" % n)
+    if only is None:
+        ctx.check("R4-error-conversion", "count", n >= 25, "only %d libc call results inspected" % n)
 
 
 def r5_flags(ctx, F, table):
